@@ -83,7 +83,10 @@ theorem step_outs {s s' : Sender ℚ} {a : Act ℚ} {outs : List (Tx ℚ)} (h : 
       simp only [Nat.not_lt.mpr hf, hp, if_true, if_false] at hs'
       cases hs'
     have hok : AckOk s x := ⟨hf, not_lt.mp hp⟩
-    by_cases hd : x.ackno = s.last_ack
+    rcases Nat.lt_trichotomy x.ackno s.last_ack with hst | hd | hd
+    · rw [ackStep_stale s x hok hst] at hs'
+      injection hs' with e1 e2; subst e1 e2
+      exact ⟨rfl, fun tx htx => by simp at htx, fun tx htx => by simp at htx⟩
     · rcases Nat.lt_trichotomy s.dupack 2 with h2 | h2 | h2
       · rw [ackStep_early s x hok hd h2] at hs'
         injection hs' with e1 e2; subst e1 e2
